@@ -26,7 +26,7 @@ RULE = ('cases = (route table, request, draws, upstream reads): 1-2 generated Re
 TRUSTED = ['Python re (route matching) enters the model as the oracle re_match; the harness computes the match table with the real re',
            'Url.from_bytes is not modelled here: the model takes the parsed components; every generated URL is compared with Url.from_bytes and urllib on every run',
            'TLS wrap of https upstreams is patched to a recorder (hostname logged); the handshake itself is outside the model',
-           'reference request parser ref_parse (Net/ReverseFacts.v) as the reading of RFC 7230 section 3; cross-validated by h11 on what the fake upstream received',
+           'reference request parser ref_parse (second half of Net/Reverse.v) as the reading of RFC 7230 section 3; cross-validated by h11 on what the fake upstream received',
            'relay of queued bytes to the sockets (flush, short writes) is C01; here every send is accepted in full']
 ASSUMPTIONS = ['first request of a client connection (a second keep-alive request replaces self.upstream: known defect owned by C04/C10)',
                'ReverseProxy is the only HttpWebServerBasePlugin, static server disabled, plugins keep the default protocols()',
@@ -58,7 +58,7 @@ def url_bytes(u):
         s += ':%d' % u['port']
     if u['path'] is not None:
         s += u['path']
-    return s.encode()
+    return s.encode() + bytes(u.get('raw') or b'')      # 'raw': non-UTF-8 bytes appended to the path (malformed stream)
 
 
 def rand_url(rng, weird=False):
@@ -204,6 +204,13 @@ def generate(rng, tier):
             c['request']['method'] = b''      # " /path HTTP/1.1": empty method -> build() asserts after the connect
         elif r == 5:
             c['request']['version'] = rng.choice([b'HTTP/1.1 extra', b'HTTP/1.1'])
+        else:
+            us = list(all_urls(c))
+            if us:
+                u = rng.choice(us)
+                if u['path'] is None:
+                    u['path'] = '/p'
+                u['raw'] = rng.choice([b'\xff', b'\xc3', b'caf\xe9'])     # str(url) raises for a dynamic route
         c['kind'] = 'malformed'
         cases.append(c)
     return cases
@@ -501,7 +508,7 @@ def in_domain(case):
     if any(p.get('before') for p in case['plugins']):
         return False
     for u in all_urls(case):
-        if u.get('userinfo') or u['port'] == 0 or (u['path'] and ' ' in u['path']):
+        if u.get('userinfo') or u['port'] == 0 or (u['path'] and ' ' in u['path']) or u.get('raw'):
             return False
     for p in case['plugins']:
         for r in p['routes']:
@@ -524,10 +531,12 @@ def oracle(case, out):
             continue
         if 'error' in x:
             return 'Url.from_bytes(%r) raised' % ub
-        want = (u['scheme'].encode(), u['host'].encode(), u['port'], None if u['path'] is None else u['path'].encode())
+        want = (u['scheme'].encode(), u['host'].encode(), u['port'], None if u['path'] is None else u['path'].encode() + bytes(u.get('raw') or b''))
         got = (x['scheme'], x['hostname'], x['port'], x['remainder'])
         if got != want:
             return 'Url.from_bytes(%r) = %r, generated from %r' % (ub, got, want)
+        if u.get('raw'):
+            continue
         sp = urlsplit(ub.decode())
         if sp.hostname != u['host'].strip('[]').lower() or sp.port != u['port'] or sp.scheme != u['scheme']:
             return 'urllib disagrees with the generator on %r' % ub
